@@ -350,12 +350,19 @@ Definition run_gr_case (ins : list grinput) : val := VL (observe_gr GIdle ins).
 Definition v_route (r : route) : val :=
   VL [VN (r_fam r); VN (r_id r); VN (r_sess r); VB (r_stale r); VB (r_llgr r); VB (r_no_llgr r); VB (r_llgr_comm r)].
 
+Definition v_negotiated (s : option session) : val :=
+  match s with
+  | None => VL []
+  | Some s => VL [VOpt (fun g => match g with (l, rt, nb) => VL [VNs l; VN rt; VB nb] end) (s_gr s);
+                  VOpt v_pairs (s_llgr s)]
+  end.
+
 Fixpoint observe_h (h : hstate) (evs : list hevent) : list val :=
   match evs with
   | [] => []
   | e :: r => let h' := h_step h e in
               VL [VB (is_peer_restarting (h_gr h')); VB (h_rtimer h'); VNs (h_ltimers h');
-                  VList v_route (h_rib h')] :: observe_h h' r
+                  VList v_route (h_rib h'); v_negotiated (h_sess h')] :: observe_h h' r
   end.
 
 Definition run_h_case (evs : list hevent) : val := VL (observe_h h0 evs).
